@@ -8,8 +8,9 @@
                    items, designators name existing members / indices below the bound); a union's braces
                    hold exactly one item (chibicc accepts no more - a limitation, see DELIVERY);
                    a string literal only where it initializes an array of character type (p14), possibly
-                   reached by elision through first members (`str_ok`);
-                   of the GNU range designators only `[a ... b] = v` for single elements (`range_ok`);
+                   reached by elision through first members / first elements (`str_ok`);
+                   of the GNU range designators those that END a designator list and whose initializer is for one
+                   element (`split_range`, `range_ok`);
                    no flexible array members: outside `valid`, tied only;
      clean         the two documented deviations of parse.c are not triggered:
                      (1) a braced initializer for an aggregate some part of which an EARLIER item already
@@ -38,21 +39,21 @@ Definition no_range (ds : list desig) : bool :=
   forallb (fun d => match d with DRange _ _ => false | _ => true end) ds.
 
 (* p14 + p20: a string literal is for an array of character type; it may reach it by brace elision through first
-   members of structs / unions, but not through an array of arrays (parse.c stops with an internal error there:
-   finding 3, `struct { char s[2][3]; } x = { "ab" };`) *)
+   members of structs / unions and first elements of arrays: `struct { char s[2][3]; } x = { "ab" };` *)
 Fixpoint str_ok (W : ty) : bool :=
   match W with
   | TScalar _ => false
-  | TArray n e => is_char_array W && in_bound n 0
+  | TArray n e => in_bound n 0 && (is_char_array W || str_ok e)
   | TStruct ms => match ms with [] => false | m :: _ => str_ok m end
   | TUnion ms => match ms with [] => false | m :: _ => str_ok m end
   end.
 
-(* the one form of a GNU range designator inside `valid`: `[a ... b] = v` as the whole designation, in an array,
-   a <= b below the bound, v an initializer that is consumed by ONE element (a braced list, an expression for a
-   scalar element, a string literal for a character-array element).  Other uses (a range followed by further
-   designators, a range in second or later position, an expression that brace elision spreads over an
-   aggregate element) are gcc-defined at best; parse.c deviates from gcc there (finding 2 and DELIVERY). *)
+(* the form of a GNU range designator inside `valid`: the range is the LAST designator of the list
+   (`[a ... b] = v`, `[1][2 ... 4] = v`, `.m[0 ... 1] = v`), the designators before it are plain, a <= b below the
+   bound, and v is an initializer that is consumed by ONE element (a braced list, an expression for a scalar element,
+   a string literal for a character-array element).  Other uses (a range followed by further designators, an
+   expression that brace elision spreads over an aggregate element) are gcc-defined at best and outside `valid`:
+   parse.c replays the items that follow for every index of the range there. *)
 Definition single (e : ty) (v : init) : bool :=
   match v with
   | IList _ => true
@@ -63,6 +64,14 @@ Definition range_ok (U : ty) (a b : nat) (v : init) : bool :=
   match U with
   | TArray n e => (a <=? b) && in_bound n b && single e v
   | _ => false
+  end.
+
+(* ds = ds1 ++ [DRange a b] *)
+Fixpoint split_range (ds : list desig) : option (list desig * nat * nat) :=
+  match ds with
+  | [] => None
+  | [DRange a b] => Some ([], a, b)
+  | d :: ds' => match split_range ds' with Some (ds1, a, b) => Some (d :: ds1, a, b) | None => None end
   end.
 
 Fixpoint ok_init (U : ty) (p : path) (v : init) {struct v} : bool :=
@@ -98,13 +107,25 @@ with ok_items (U : ty) (c : option path) (l : items) {struct l} : bool :=
           | None => false
           | Some p => ok_init U p v && ok_items U (next U (snd (spec_init U p v))) tl
           end
-      | [DRange a b] =>         (* GNU: [a ... b] = v, v an initializer for exactly one element *)
-          range_ok U a b v && ok_init U [b] v && ok_items U (next U (snd (spec_init U [b] v))) tl
       | _ =>
-          no_range ds &&
-          match targets U ds with
-          | [p] => ok_init U p v && ok_items U (next U (snd (spec_init U p v))) tl
-          | _ => false
+          match split_range ds with
+          | Some (ds1, a, b) =>   (* GNU: <designators> [a ... b] = v, v an initializer for exactly one element *)
+              no_range ds1 &&
+              match targets U ds1 with
+              | [p1] =>
+                  match sub U p1 with
+                  | Some W1 => range_ok W1 a b v && ok_init U (p1 ++ [b]) v
+                               && ok_items U (next U (snd (spec_init U (p1 ++ [b]) v))) tl
+                  | None => false
+                  end
+              | _ => false
+              end
+          | None =>
+              no_range ds &&
+              match targets U ds with
+              | [p] => ok_init U p v && ok_items U (next U (snd (spec_init U p v))) tl
+              | _ => false
+              end
           end
       end
   end.
@@ -125,11 +146,14 @@ Definition clean_union (T : ty) (ev : list event) : bool :=
 
 Definition clean (T : ty) (ev : list event) : bool := clean_clear [] ev && clean_union T ev.
 
-(* an array of unknown bound needs a braced list or a string literal (`int x[] = 5;` is not C) *)
+(* the initializer of the whole object: an aggregate or union takes a braced list (p16), a character array also a
+   string literal (p14), a scalar an expression, optionally braced (p11).  (`struct S s = 5;`, `int x[] = 5;` and
+   `char a[2][4] = "abc";` are not C; chibicc accepts some of them.) *)
 Definition top_ok (T : ty) (v : init) : bool :=
-  match T, v with
-  | TArray None _, IExpr _ => false
-  | _, _ => true
+  match v with
+  | IList _ => true
+  | IExpr _ => match T with TScalar _ => true | _ => false end
+  | IStr _ => is_char_array T
   end.
 
 Definition valid (T : ty) (v : init) : bool :=
